@@ -58,18 +58,53 @@ class _ShadowRule:
                 o.rule = self.dst
 
 
+def _ct(t):
+    from ..pattern import norm as pn
+    from ..canon import _SymOrder
+    return pn(_SymOrder().visit(ast.parse(t, mode="eval").body))
+
+
 def _r1(chk, repo):
+    """CUQIarray.funvals / parameters as decision tables over the representation flag (and the object-dtype special case)"""
+    from .common import canon_fn
+    from ..pathtable import walk
+    from ..pattern import norm as pn
     ca = repo.cls("cuqi/array/_array.py:CUQIarray")
     f = ca.props["funvals"].getter
-    t = _norm(f)
-    ok = "ifself.is_parisTrue:vals=self.geometry.par2fun(self)else:vals=self" in t and "returntype(self)(vals,is_par=False,geometry=self.geometry)" in t
-    chk.add("C13-R1", f"{ca.qual}.@funvals", ok, site(repo, f), "parameters -> geometry.par2fun; function values unchanged; result flagged is_par=False",
-            "CUQIarray.funvals conversion table changed", f)
+    v = canon_fn(repo, ca, f, 2)
+    problems, und = [], []
+    for par in (True, False):
+        val = {}
+        for k_, b_ in ((("self.is_par is True", "self.is_par", "self.is_par==True"), par), (("self.is_par is False", "not self.is_par", "self.is_par is not True"), not par)):
+            for k in k_:
+                val[_ct(k)] = b_
+        conv = "self.geometry.par2fun(self)" if par else "self"
+        val[_ct(f"isinstance({conv},np.ndarray)")] = True
+        val[_ct(f"{conv}.dtype==np.dtype('O')")] = False
+        kind, res = walk(v, val, pn)
+        if kind != "return":
+            und.append((kind, res))
+        elif _ct(unparse(res)) != _ct(f"type(self)({conv},is_par=False,geometry=self.geometry)"):
+            problems.append(f"[is_par={par}] returns `{unparse(res)[:100]}`")
+    chk.decide("C13-R1", f"{ca.qual}.@funvals", not problems and not und, not und, site(repo, f), "parameters -> geometry.par2fun; function values unchanged; result flagged is_par=False",
+               "CUQIarray.funvals conversion table changed: " + "; ".join(problems), f)
     p = ca.props["parameters"].getter
-    t = _norm(p)
-    ok = "ifself.is_parisFalse:" in t and "vals=self.geometry.fun2par(funvals)" in t and "else:vals=self" in t and "returntype(self)(vals,is_par=True,geometry=self.geometry)" in t
-    chk.add("C13-R1", f"{ca.qual}.@parameters", ok, site(repo, p), "function values -> geometry.fun2par; parameters unchanged; result flagged is_par=True",
-            "CUQIarray.parameters conversion table changed", p)
+    v = canon_fn(repo, ca, p, 2)
+    problems, und = [], []
+    for par in (True, False):
+        val = {}
+        for k_, b_ in ((("self.is_par is False", "not self.is_par", "self.is_par==False", "self.is_par is not True"), not par), (("self.is_par is True", "self.is_par"), par)):
+            for k in k_:
+                val[_ct(k)] = b_
+        val[_ct("self.dtype==np.dtype('O')")] = False
+        kind, res = walk(v, val, pn)
+        conv = "self" if par else "self.geometry.fun2par(self)"
+        if kind != "return":
+            und.append((kind, res))
+        elif _ct(unparse(res)) != _ct(f"type(self)({conv},is_par=True,geometry=self.geometry)"):
+            problems.append(f"[is_par={par}] returns `{unparse(res)[:100]}`")
+    chk.decide("C13-R1", f"{ca.qual}.@parameters", not problems and not und, not und, site(repo, p), "function values -> geometry.fun2par; parameters unchanged; result flagged is_par=True",
+               "CUQIarray.parameters conversion table changed: " + "; ".join(problems), p)
 
 
 def _r2(chk, repo):
@@ -84,9 +119,27 @@ def _r2(chk, repo):
     if n < 9:
         raise AnchorError(f"{n} classes define par2fun, 9 confirmed by hand")
     mg = repo.cls(f"{GEO}:MappedGeometry")
-    t = {k: _norm(v) for k, v in mg.methods.items()}
-    ok = "returnself.map(self.geometry.par2fun(p))" in t.get("par2fun", "") and "returnself.geometry.fun2par(self.imap(f))" in t.get("fun2par", "") \
-        and "ifself.imapisNone:raise" in t.get("fun2par", "") and "returnself.geometry.fun2vec(fun)" in t.get("fun2vec", "") and "returnself.geometry.vec2fun(funvec)" in t.get("vec2fun", "")
+    from .common import canon_fn
+    from ..pathtable import walk
+    from ..pattern import norm as pn
+
+    def ret(name, val):
+        fn_ = mg.methods[name]
+        a0 = func_params(fn_)[1]
+        k_, r_ = walk(canon_fn(repo, mg, fn_, 2), {_ct(k): b for k, b in val.items()}, pn)
+        return a0, k_, (_ct(unparse(r_)) if k_ == "return" else None)
+    HAS = {"self.imap is None": False, "self.imap is not None": True}
+    NOT = {"self.imap is None": True, "self.imap is not None": False}
+    a, k1, r1 = ret("par2fun", {})
+    ok = k1 == "return" and r1 == _ct(f"self.map(self.geometry.par2fun({a}))")
+    a, k2, r2 = ret("fun2par", HAS)
+    ok = ok and k2 == "return" and r2 == _ct(f"self.geometry.fun2par(self.imap({a}))")
+    a, k3, r3 = ret("fun2par", NOT)
+    ok = ok and k3 == "raise"
+    a, k4, r4 = ret("fun2vec", {})
+    ok = ok and k4 == "return" and r4 == _ct(f"self.geometry.fun2vec({a})")
+    a, k5, r5 = ret("vec2fun", {})
+    ok = ok and k5 == "return" and r5 == _ct(f"self.geometry.vec2fun({a})")
     chk.add("C13-R2", f"{mg.qual}/forwarding", ok, f"{GEO}:{mg.node.lineno}", "par2fun = map∘inner.par2fun, fun2par = inner.fun2par∘imap (refused without imap), vec maps forwarded",
             "MappedGeometry does not compose the map with the wrapped geometry's maps in inverse order", mg.node)
 
